@@ -100,6 +100,11 @@ func vhPaging(q int, n int, symbolicIDs bool, filterKinds []int) {
 		if q >= 5 {
 			// SEARCH iterates string values: the byte is the value, ids are fixed
 			vhDo(s, "SET", "k", vhDigits[i], "FIELD", "f", vhDigits[i], "STRING", ids[i])
+		} else if q == 4 && i < 3 {
+			// NEARBY: several objects at exactly the same distance, written in an order that is not the id order
+			id := [3]string{"c", "a", "b"}[i]
+			ids[i] = id
+			vhDo(s, "SET", "k", id, "FIELD", "f", vhDigits[i], "POINT", "3", "3")
 		} else if i%2 == 0 || q >= 2 {
 			vhDo(s, "SET", "k", ids[i], "FIELD", "f", vhDigits[i], "POINT", vhDigits[i], vhDigits[i+1])
 		} else {
@@ -158,7 +163,7 @@ func VH_C11_paging_scan() {
 	vhPaging(vchoose(2), n, true, fk)
 }
 
-//verif:cfg quick.b_objects=3 thorough.b_objects=4 b_ids=concrete b_filter=none|MATCH_X*|MATCH_literal+X*|WHERE_range|WHEREIN b_limit=1..n+1 b_queries=WITHIN,INTERSECTS,NEARBY
+//verif:cfg quick.b_objects=3 thorough.b_objects=4 b_ids=concrete b_filter=none|MATCH_X*|MATCH_literal+X*|WHERE_range|WHEREIN b_limit=1..n+1 b_queries=WITHIN,INTERSECTS,NEARBY(three_objects_at_the_same_distance)
 func VH_C11_paging_spatial() {
 	n := 3
 	if vthorough() {
